@@ -11,7 +11,8 @@ requests:
   {"op":"transpose","m":[9]}                             → {"m":[9]}
   {"op":"toAngle","m":[9],"rad":[h,rp,rr,rg]}            → {"a":[6],"general":bool}
   {"op":"inverse","m":[9]}                               → {"m":[9]|null}
-  {"op":"dispatch","fresh":b,"l":t,"r":t,"form":f,"lv":[…],"rv":[…],"rad":[4]}
+  {"op":"dispatch",["fresh":b,]   (default: Gen.Rot.fmatProductFresh, extracted from the source)
+                   "l":t,"r":t,"form":f,"lv":[…],"rv":[…],"rad":[4]}
         → {"res":null} | {"res":t,"inplace":b,"formula":[kind,lconv,rconv,toAng],"val":[…]|null}
   {"op":"table","fresh":b}                               → {"table":[[l,r,form,null|[res,inplace,kind,lconv,rconv,toAng]]…]}
 tags: 0 Vec 1 FrozenVec 2 tuple 3 Angle 4 FrozenAngle 5 Matrix 6 FrozenMatrix; forms: 0 @  1 @=  2 direct __rmatmul__.
@@ -106,7 +107,7 @@ def handle (j : Json) : Except String Json := do
       | some n => matJson n
       | none => Json.null)])
   | "dispatch" =>
-    let fresh ← j.getObjValAs? Bool "fresh"
+    let fresh := (j.getObjValAs? Bool "fresh").toOption.getD Gen.Rot.fmatProductFresh
     let l ← tagOf (← j.getObjValAs? Nat "l")
     let r ← tagOf (← j.getObjValAs? Nat "r")
     let f ← formOf (← j.getObjValAs? Nat "form")
@@ -122,13 +123,13 @@ def handle (j : Json) : Except String Json := do
       pure (Json.mkObj [("res", nat (tagNum e.res)), ("inplace", Json.bool e.inPlace),
         ("formula", Json.arr (entryFields e).toArray), ("val", val)])
   | "table" =>
-    let fresh ← j.getObjValAs? Bool "fresh"
+    let fresh := (j.getObjValAs? Bool "fresh").toOption.getD Gen.Rot.fmatProductFresh
     let rows := allTags.flatMap fun l => allTags.flatMap fun r => allForms.map fun (fn, f) =>
       Json.arr #[nat (tagNum l), nat (tagNum r), nat fn,
         match dispatch fresh l r f with
         | none => Json.null
         | some e => Json.arr (entryFields e).toArray]
-    pure (Json.mkObj [("table", Json.arr rows.toArray)])
+    pure (Json.mkObj [("table", Json.arr rows.toArray), ("fresh", Json.bool fresh)])
   | _ => throw s!"unknown op {op}"
 
 def main : IO Unit := Wire.main handle
